@@ -17,6 +17,7 @@ import (
 	"github.com/safing/jess/filesig"
 	"github.com/safing/jess/lhash"
 	"github.com/safing/portbase/log"
+	"github.com/safing/portbase/utils"
 	"github.com/safing/portbase/utils/renameio"
 )
 
@@ -118,7 +119,7 @@ func (reg *ResourceRegistry) fetchFile(ctx context.Context, client *http.Client,
 	// Write signature file, if we have one and if verification succeeded.
 	if len(sigFileData) > 0 && hasher != nil {
 		sigFilePath := rv.storagePath() + filesig.Extension
-		err := os.WriteFile(sigFilePath, sigFileData, 0o0644) //nolint:gosec
+		err := reg.writeFileAtomic(sigFilePath, sigFileData, 0o0644)
 		if err != nil {
 			switch rv.resource.VerificationOptions.DownloadPolicy {
 			case SignaturePolicyRequire:
@@ -211,7 +212,7 @@ func (reg *ResourceRegistry) fetchMissingSig(ctx context.Context, client *http.C
 	}
 
 	// Write signature file.
-	err = os.WriteFile(rv.storageSigPath(), sigFileData, 0o0644) //nolint:gosec
+	err = reg.writeFileAtomic(rv.storageSigPath(), sigFileData, 0o0644)
 	if err != nil {
 		switch rv.resource.VerificationOptions.DownloadPolicy {
 		case SignaturePolicyRequire:
@@ -225,6 +226,16 @@ func (reg *ResourceRegistry) fetchMissingSig(ctx context.Context, client *http.C
 
 	log.Debugf("%s: fetched %s and stored to %s", reg.Name, rv.versionedSigPath(), rv.storageSigPath())
 	return nil
+}
+
+// writeFileAtomic writes data to a temporary file in the registry's tmp dir
+// and then renames it to dest, so that an interrupted write never leaves a
+// truncated file at dest.
+func (reg *ResourceRegistry) writeFileAtomic(dest string, data []byte, perm os.FileMode) error {
+	return utils.CreateAtomic(dest, bytes.NewReader(data), &utils.AtomicFileOptions{
+		Mode:    perm,
+		TempDir: reg.tmpDir.Path,
+	})
 }
 
 func (reg *ResourceRegistry) fetchAndVerifySigFile(ctx context.Context, client *http.Client, verifOpts *VerificationOptions, sigFilePath string, requiredMetadata map[string]string, tries int) (*lhash.LabeledHash, []byte, error) {
